@@ -368,7 +368,7 @@ func c14Apply(h *Hub, op *Op, jobsCfg map[string]map[string]any, keys map[string
 			_, oerr = h.Dsm.UpdateDataset(op.DS, &server.UpdateDatasetConfig{ID: op.DS2})
 		}
 	case "addJob":
-		if src, ok := op.M["source"].(map[string]any); ok && h.Dataset(fmt.Sprint(src["Name"])) == nil {
+		if src, ok := op.M["source"].(map[string]any); ok && src["Name"] != nil && h.Dataset(fmt.Sprint(src["Name"])) == nil {
 			break
 		}
 		oerr = h.AddJobJSON(op.M)
